@@ -120,18 +120,18 @@ Proof. intros R RR FF. exact (usolve_spec (R:=R)). Qed.
 Print Assumptions C10_back_substitution.
 
 (* power iteration: stopping contract (for every interpretation of the scalar operations, floats included) *)
-Theorem C10_power_stopping : forall (T : Type) (o : pops T) A tol max_iter ten one v0,
-  let s := power_iteration o A tol max_iter ten one v0 in
-  (pit s <= max_iter)%nat /\ (pit s = max_iter \/ pgtb o (perr o s) tol = false).
+Theorem C10_power_stopping : forall (T : Type) (o : pops T) (fl : pflags) A tol max_iter ten one v0,
+  let s := power_iteration o fl A tol max_iter ten one v0 in
+  (pit s <= max_iter)%nat /\ (pit s = max_iter \/ pgtb o (perr o fl s) tol = false).
 Proof. exact @power_stopping. Qed.
 Print Assumptions C10_power_stopping.
 (* ... and a fixed point of the normalised step is an eigenvector; for a unit vector the value returned is its eigenvalue
    (partial: convergence to the dominant pair is a limit statement and is not proved) *)
-Theorem C10_power_fixed_point_partial : forall (R : Type) (RR : Ring R) (FF : Field R) (fabs fsqrt : R -> R) (fgtb : R -> R -> bool)
-  (A : list (list R)) (v vp : list R) (i : nat) (e ep : R),
-  let s := mkps i v vp e ep in
-  pnorm (fo fabs fsqrt fgtb) (pmv (fo fabs fsqrt fgtb) A v) <> r0 -> pv (pbody (fo fabs fsqrt fgtb) A s) = v -> pdot (fo fabs fsqrt fgtb) v v = r1 ->
-  pmv (fo fabs fsqrt fgtb) A v = map (fun x => rmul (peig (pbody (fo fabs fsqrt fgtb) A s)) x) v.
+Theorem C10_power_fixed_point_partial : forall (R : Type) (RR : Ring R) (FF : Field R) (fabs fsqrt : R -> R) (fgtb : R -> R -> bool) (fconj : R -> R)
+  (fl : pflags) (A : list (list R)) (v vp : list R) (i : nat) (e ep : R),
+  let o := fo fabs fsqrt fgtb fconj in let s := mkps i v vp e ep in
+  pnorm o (pmv o A v) <> r0 -> pv (pbody o fl A s) = v -> prq o fl v v = r1 ->
+  pmv o A v = map (fun x => rmul (peig (pbody o fl A s)) x) v.
 Proof. intros R RR FF. exact (power_fixed_point_unit (R:=R)). Qed.
 Print Assumptions C10_power_fixed_point_partial.
 
@@ -161,10 +161,63 @@ Theorem C10_eig_tri_complex_refuted :
 Proof. exact eig_tri_complex_refuted. Qed.
 Print Assumptions C10_eig_tri_complex_refuted.
 Theorem C10_power_negative_refuted : forall fsqrt : qi -> qi,
-  let s := power_iteration (fo qabs fsqrt qgtb) A_pow (qc 1 1000000, 0%Qc) 100 (qz 10) (qz 1) [qz 2; qz 1; qz 1] in
+  let s := power_iteration (fo qabs fsqrt qgtb qiconj) pinned_flags A_pow (qc 1 1000000, 0%Qc) 100 (qz 10) (qz 1) [qz 2; qz 1; qz 1] in
   pit s = 1%nat /\ qi_eqb (peig s) (qz (-17)) = true.
 Proof. exact power_negative_refuted. Qed.
 Print Assumptions C10_power_negative_refuted.
+
+(* ---- the repaired rules (flags fixed): sort the oracle's pairs by magnitude, then slice ---- *)
+Theorem C10_eig_sorted_pairs : forall (R : Type) (RR : Ring R) (FF : Field R) leb n m (A : fm (R:=R)) w V k wh o,
+  EigSpec n m A w V -> eig_sorted leb m w V k wh = Some o -> EigPairs n A o.
+Proof. intros R RR FF. exact (eig_sorted_pairs (R:=R)). Qed.
+Print Assumptions C10_eig_sorted_pairs.
+(* with leb the comparison of magnitudes: 'LM' returns the k eigenvalues of largest magnitude, 'SM' the k of smallest *)
+Theorem C10_eig_sorted_selects_LM : forall (R : Type) (RR : Ring R) (FF : Field R) leb m (w : nat -> R) (V : fm (R:=R)) k o,
+  (forall a b, leb a b = true \/ leb b a = true) -> (forall a b c, leb a b = true -> leb b c = true -> leb a c = true) ->
+  (1 <= k)%nat -> (k <= m)%nat -> eig_sorted leb m w V (Z.of_nat k) LM = Some o ->
+  let idx := argsort leb m w in
+  Permutation idx (seq 0 m) /\ ek o = k /\ (forall j, (j < k)%nat -> ew o j = w (nth (m - k + j) idx 0%nat)) /\
+  forall i j, (i < m - k)%nat -> (j < k)%nat -> leb (w (nth i idx 0%nat)) (ew o j) = true.
+Proof. intros R RR FF. exact (eig_sorted_selects_LM (R:=R)). Qed.
+Print Assumptions C10_eig_sorted_selects_LM.
+Theorem C10_eig_sorted_selects_SM : forall (R : Type) (RR : Ring R) (FF : Field R) leb m (w : nat -> R) (V : fm (R:=R)) k o,
+  (forall a b, leb a b = true \/ leb b a = true) -> (forall a b c, leb a b = true -> leb b c = true -> leb a c = true) ->
+  (1 <= k)%nat -> (k <= m)%nat -> eig_sorted leb m w V (Z.of_nat k) SM = Some o ->
+  let idx := argsort leb m w in
+  Permutation idx (seq 0 m) /\ ek o = k /\ (forall j, (j < k)%nat -> ew o j = w (nth j idx 0%nat)) /\
+  forall i j, (k <= i)%nat -> (i < m)%nat -> (j < k)%nat -> leb (ew o j) (w (nth i idx 0%nat)) = true.
+Proof. intros R RR FF. exact (eig_sorted_selects_SM (R:=R)). Qed.
+Print Assumptions C10_eig_sorted_selects_SM.
+(* repaired rule for LOWER triangular operators (routine applied to the reversed matrix): eigenpairs *)
+Theorem C10_eig_triangular_lower : forall (R : Type) (RR : Ring R) (FF : Field R) leb n (L : fm (R:=R)) k wh o,
+  lower n L -> (forall a b, (a < b)%nat -> (b < n)%nat -> L a a <> L b b) ->
+  eig_tri_lower leb usolve (fun x => x) n L k wh = Some o -> EigPairs n L o.
+Proof. intros R RR FF. exact (eig_tri_lower_pairs (R:=R)). Qed.
+Print Assumptions C10_eig_triangular_lower.
+(* on the refutation witnesses the repaired rules return the right answers *)
+Theorem C10_sorted_by_magnitude_repaired :
+  (exists o, eig_sorted qi_mag_leb 3 (vecl w_eigh) eye 1 LM = Some o /\ qi_eqb (ew o 0%nat) (qz (-5)) = true) /\
+  (exists o, eig_sorted qi_mag_leb 2 (vecl w_eig) (matl V_eig) 1 LM = Some o /\ qi_eqb (ew o 0%nat) (qz 5) = true) /\
+  (exists o, eig_diag qi_mag_leb 3 (vecl w_eigh) 1 LM = Some o /\ qi_eqb (ew o 0%nat) (qz (-5)) = true).
+Proof. exact sorted_by_magnitude_repaired. Qed.
+Print Assumptions C10_sorted_by_magnitude_repaired.
+Theorem C10_eig_tri_lower_repaired :
+  exists o, eig_tri_lower qi_mag_leb usolve (fun x => x) 2 (matl L_tri) 2 LM = Some o /\
+            feqb 2 2 (mmul 2 (matl L_tri) (eV o)) (fun i j => qimul (ew o j) (eV o i j)) = true.
+Proof. exact eig_tri_lower_repaired. Qed.
+Print Assumptions C10_eig_tri_lower_repaired.
+Theorem C10_power_negative_repaired : forall fsqrt : qi -> qi,
+  let o := fo qabs fsqrt qgtb qiconj in
+  let s1 := pbody o fixed_flags A_pow (mkps 0 [qz 2; qz 1; qz 1] [qz 2; qz 1; qz 1] (qz 10) (qz 1)) in
+  qi_eqb (peig s1) (qz (-17)) = true /\ pgtb o (perr o fixed_flags s1) (qc 1 1000000, 0%Qc) = true.
+Proof. exact power_negative_repaired. Qed.
+Print Assumptions C10_power_negative_repaired.
+Example C10_magnitude_order_total : forall a b, qi_mag_leb a b = true \/ qi_mag_leb b a = true.
+Proof. exact qi_mag_leb_total. Qed.
+Print Assumptions C10_magnitude_order_total.
+Example C10_magnitude_order_trans : forall a b c, qi_mag_leb a b = true -> qi_mag_leb b c = true -> qi_mag_leb a c = true.
+Proof. exact qi_mag_leb_trans. Qed.
+Print Assumptions C10_magnitude_order_trans.
 
 (* hypotheses are satisfiable *)
 Example C10_example_triangular : exists o, eig_tri qi_leb usolve (fun x => x) 3 (matl U_ex) 2 LM = Some o /\ ek o = 2%nat /\
